@@ -70,3 +70,24 @@ def run_certs(ck, circuits, label):
     ck.obligation(f'{label}: certificates (ownership simulation of the memory map, level independence, SSA-topological op list) hold for the model\'s SimOps '
                   f'result on {len(cases)} circuits (unit capacities)', ran and not bad, 'correspondence', f'failing circuits {bad[:8]}')
     return bad
+
+
+def run_domain(ck, circuits, label, min_frac=0.3):
+    """Discharges the netlist hypotheses of the option theorems (wf_netlist, comb_acyclic, gates_known, forks_ok) on generated
+    circuits with the proved-sound checker Proofs/OptionsCheck.hyps_all_b; reports how many circuits lie inside the proved domain."""
+    nets = [cg.coq_netlist(c) for c in circuits]
+    chunks = [nets[i:i + 40] for i in range(0, len(nets), 40)]
+    texts = ['From Coq Require Import List NArith Bool Arith String.\nFrom KV Require Import Model.Netlist Proofs.OptionsCheck.\n'
+             'Import ListNotations.\nOpen Scope string_scope.\nDefinition res : list bool := [\n ' +
+             ';\n '.join(f'hyps_all_b {n}' for n in ch) +
+             '].\nEval vm_compute in (map fst (filter (fun p => negb (snd p)) (combine (seq 0 (List.length res)) res))).\n' for ch in chunks]
+    outs = ck.coq_eval_many('dom', texts, jobs=12)
+    ran = all(ok and cg.parse_nat_list(out) is not None for ok, out in outs)
+    outside = [ci * 40 + j for ci, (ok, out) in enumerate(outs) for j in ((cg.parse_nat_list(out) if ok else None) or [])]
+    inside = len(nets) - len(outside)
+    ck.dist[f'{label}: circuits inside the proved domain (wf, acyclic, gates_known, forks_ok)'] = inside
+    ck.dist[f'{label}: circuits outside (e.g. output-less gate, unknown kind, fork without input)'] = len(outside)
+    ck.obligation(f'{label}: the hypotheses of the option theorems are discharged by the proved-sound checker hyps_all_b on {inside} of '
+                  f'{len(nets)} generated circuits (non-vacuity; the others are covered by the per-case certificate only)',
+                  ran and inside >= min_frac * len(nets), 'correspondence', '' if ran else outs[0][1][-500:])
+    return outside
